@@ -248,6 +248,12 @@ func ruleC02R1(c *Ctx) {
 				st.Flags &^= dfSnapPersisted | dfSent
 			}
 		}
+		// ... also when the grab was extracted into a helper
+		if ci, ok := in.(*ssa.Call); ok {
+			if callee := ci.Common().StaticCallee(); callee != nil && callee.Blocks != nil && c.InRepo(callee) && readsAckFields(callee, a) {
+				st.Flags &^= dfSnapPersisted | dfSent
+			}
+		}
 		s := inRoot[in]
 		if s == nil {
 			if ci, ok := in.(ssa.CallInstruction); ok {
@@ -791,6 +797,7 @@ const (
 	lfWLocked
 	lfAccessed // a guarded ack/root field was accessed in the current section
 	lfDone     // a section with accesses was left
+	lfDeferredUnlock
 )
 
 func lockCallKind(cc *ssa.CallCommon, field *types.Var) string {
@@ -830,21 +837,17 @@ func ruleC02R3(c *Ctx) {
 		var problems []string
 		ex := &Explorer{Fn: fn}
 		ex.OnInstr = func(in ssa.Instruction, st *PState) bool {
-			if cc := callOf(in); cc != nil {
-				if _, isDefer := in.(*ssa.Defer); !isDefer {
-					switch lockCallKind(cc, a.WRootLock) {
-					case "Lock":
-						st.Flags |= lfLocked | lfWLocked
-					case "RLock":
-						st.Flags |= lfLocked
-					case "Unlock", "RUnlock":
-						if st.Flags&lfAccessed != 0 {
-							st.Flags |= lfDone
-						}
-						st.Flags &^= lfLocked | lfWLocked | lfAccessed
-					}
+			accessedBefore := st.Flags&lfAccessed != 0
+			if ev := lockStep(in, a.WRootLock, st, lfLocked, lfWLocked, lfDeferredUnlock); ev == "unlock" {
+				if accessedBefore {
+					st.Flags |= lfDone
 				}
-				// the grabbed state is consumed by a call that receives the snapshot (persist) - new round
+				st.Flags &^= lfAccessed
+			}
+			if callOf(in) != nil {
+				return true
+			}
+			if _, isRun := in.(*ssa.RunDefers); isRun {
 				return true
 			}
 			var addr ssa.Value
